@@ -67,18 +67,79 @@ theorem conform_of_hardened (p : Policy) (t : Token) (hseg : SegOK t) (htt : t.t
   refine ⟨hseg, ?_⟩
   rcases htt with h | h <;> simp only [h] <;> exact ⟨hss, aps, haps, hfix, hbare⟩
 
+/-- the general form: the list is what the rules accept (`u`, URL values in normal form) followed by what the
+    hardening block appends to it (`E`, which the rules do not accept — so the next pass strips it and the block
+    appends it again) -/
+theorem sanitizeAttrs_fixed_appended (p : Policy) (el : Bytes) (h1 : p.hasStylePolicies el = false)
+    (h2 : p.requireCrossOriginAnonymous = false) (h3 : p.requireSandboxOnIFrame = none)
+    (u E : List Attr) (aps : AttrRules)
+    (hacc : ∀ a ∈ u, (p.filterAttr el aps false a).isSome = true)
+    (hE : ∀ a ∈ E, (p.filterAttr el aps false a).isSome = false)
+    (hurl : p.requireParseableURLs = true → ∀ a ∈ u, p.urlPassAttr el a = some (some a))
+    (hout : (if ((p.requireNoFollow || p.requireNoFollowFullyQualifiedLinks || p.requireNoReferrer ||
+        p.requireNoReferrerFullyQualifiedLinks || p.addTargetBlankToFullyQualifiedLinks) &&
+        decide (u.length > 0) && isHrefElement el) = true then p.hardenLinks el u else u) = u ++ E) :
+    p.sanitizeAttrs el (u ++ E) aps = some (u ++ E) := by
+  rw [link_sanitizeAttrs3 p el h1 h2 h3]
+  simp only
+  have hf : (u ++ E).filter (fun a => (p.filterAttr el aps false a).isSome) = u := by
+    rw [List.filter_append, List.filter_eq_self.mpr hacc,
+      List.filter_eq_nil_iff.mpr (fun a ha => by simp [hE a ha]), List.append_nil]
+  rw [hf]
+  by_cases hue : u.isEmpty = true
+  · have hu : u = [] := List.isEmpty_iff.mp hue
+    subst hu
+    simp only [List.length_nil, Nat.lt_irrefl, decide_false, Bool.and_false, Bool.false_and, Bool.false_eq_true,
+      ↓reduceIte, List.nil_append] at hout
+    subst hout
+    rfl
+  · simp only [hue, Bool.false_eq_true, ↓reduceIte]
+    unfold Policy.linkPasses
+    by_cases hl : linkable el = true
+    · have hu : (if p.requireParseableURLs = true then mapMOpt (p.urlPassAttr el) u else some u) = some u := by
+        by_cases hrp : p.requireParseableURLs = true
+        · simp only [hrp, ↓reduceIte]; exact mapMOpt_all_fix _ _ (hurl hrp)
+        · simp only [hrp, Bool.false_eq_true, ↓reduceIte]
+      simp only [hl, ↓reduceIte, hu, Option.map_some, hout]
+    · have hl' : linkable el = false := by simpa using hl
+      have hnh : isHrefElement el = false := by
+        cases hh : isHrefElement el with
+        | false => rfl
+        | true =>
+          exfalso
+          unfold isHrefElement at hh
+          unfold linkable at hl'
+          simp only [Bool.or_eq_true] at hh
+          simp only [Bool.or_eq_false_iff] at hl'
+          rcases hh with ((h | h) | h) | h
+          · rw [hl'.1.1.1.1.1.1.1.1.1.1.1.1.1.1.1.1] at h; cases h
+          · rw [hl'.1.1.1.1.1.1.1.1.1.1.1.1.1.1.1.2] at h; cases h
+          · rw [hl'.1.1.1.1.1.1.1.1.1.1.1.1.1.1.2] at h; cases h
+          · rw [hl'.1.1.1.1.1.1.1.1.1.1.1.1.1.2] at h; cases h
+      simp only [hnh, Bool.and_false, Bool.false_eq_true, ↓reduceIte] at hout
+      have hE0 : E = [] := by
+        have := congrArg List.length hout
+        simp only [List.length_append] at this
+        exact List.eq_nil_of_length_eq_zero (by omega)
+      subst hE0
+      simp [hl']
+
 /-! ### the converse half of C04, on the regenerated UGCPolicy -/
 
 set_option maxRecDepth 100000
 
-/-- a start or self-closing tag written in the UGC vocabulary with valid values, carrying what UGCPolicy adds -/
+/-- a start or self-closing tag written in the UGC vocabulary with valid values, carrying what UGCPolicy adds: its
+    attribute list is `u ++ E`, where the regenerated rules accept every attribute of `u` for the element, the URL
+    values in `u` are in the form the URL check returns, and `E` is exactly what UGCPolicy's link hardening appends to
+    `u` (nothing, or `rel="nofollow"` where the rules do not let rel through: `a`, `link`; on `area`, where they do,
+    the rel attribute with the token is part of `u` and `E` is empty) -/
 def UgcTag (t : Token) : Prop :=
   isScriptOrStyle t.data = false ∧
-  ∃ aps, Gen.ugcPolicy.attrRulesFor t.data = some aps ∧
-    (∀ a ∈ t.attrs, (Gen.ugcPolicy.filterAttr t.data aps false a).isSome = true) ∧
-    (∀ a ∈ t.attrs, Gen.ugcPolicy.urlPassAttr t.data a = some (some a)) ∧
-    (hasKey t.attrs b!"href" = true → HasRel t.attrs ∧ AllRel b!"nofollow" t.attrs) ∧
-    hasKey t.attrs b!"target" = false ∧
+  ∃ aps u E, t.attrs = u ++ E ∧ Gen.ugcPolicy.attrRulesFor t.data = some aps ∧
+    (∀ a ∈ u, (Gen.ugcPolicy.filterAttr t.data aps false a).isSome = true) ∧
+    (∀ a ∈ E, (Gen.ugcPolicy.filterAttr t.data aps false a).isSome = false) ∧
+    (∀ a ∈ u, Gen.ugcPolicy.urlPassAttr t.data a = some (some a)) ∧
+    (if (decide (u.length > 0) && isHrefElement t.data) = true then Gen.ugcPolicy.hardenLinks t.data u else u) = u ++ E ∧
     (t.attrs ≠ [] ∨ Gen.ugcPolicy.allowNoAttrs t.data = true)
 
 /-- a token of a document "written entirely in that vocabulary with valid values" -/
@@ -99,36 +160,22 @@ theorem ugc_noStyle (el : Bytes) : Gen.ugcPolicy.hasStylePolicies el = false := 
   have h3 : Gen.ugcPolicy.elsMatchingAndStyles = [] := by decide
   simp [Policy.hasStylePolicies, h1, h2, h3, Map.get?]
 
-theorem ugc_hardened (el : Bytes) (attrs : List Attr)
-    (hrel : hasKey attrs b!"href" = true → HasRel attrs ∧ AllRel b!"nofollow" attrs)
-    (hnt : hasKey attrs b!"target" = false) : Gen.ugcPolicy.hardenLinks el attrs = attrs := by
-  apply hardenLinks_fixed
-  intro hne
-  obtain ⟨f1, f2, f3, f4⟩ := ugc_flags
-  have hhref : hasKey attrs b!"href" = true := by
-    unfold hasKey
-    cases hf : attrs.filter (·.key == b!"href") with
-    | nil => rw [hf] at hne; cases hne
-    | cons a _ =>
-      have : a ∈ attrs.filter (·.key == b!"href") := by rw [hf]; simp
-      obtain ⟨ha, hk⟩ := List.mem_filter.mp this
-      exact List.any_eq_true.mpr ⟨a, ha, hk⟩
-  simp only [f1, f2, f3, f4, Bool.true_or, Bool.and_false, Bool.or_false]
-  refine ⟨fun _ => hrel hhref, fun h => Bool.noConfusion h, fun h => ?_, ?_⟩
-  · simp only [Bool.and_false] at h; exact Bool.noConfusion h
-  · intro hprem
-    exfalso
-    simp only [Bool.and_false, Bool.or_false, Bool.false_and, anyBlank_le attrs hnt] at hprem
-    exact Bool.noConfusion hprem
-
 theorem ugc_conform (t : Token) (h : UgcDocToken t) : Conform Gen.ugcPolicy t := by
   obtain ⟨hseg, hrest⟩ := h
   have hreq : Gen.ugcPolicy.requireCrossOriginAnonymous = false := by decide
   have hsb : Gen.ugcPolicy.requireSandboxOnIFrame = none := by decide
   have tag : (t.tt = .start ∨ t.tt = .selfClosing) → UgcTag t → Conform Gen.ugcPolicy t := by
-    intro htt ⟨hss, aps, haps, hacc, hurl, hrel, hnt, hbare⟩
-    exact conform_of_hardened Gen.ugcPolicy t hseg htt hss (ugc_noStyle _) hreq hsb aps haps hacc (fun _ => hurl)
-      (ugc_hardened t.data t.attrs hrel hnt) hbare
+    intro htt ⟨hss, aps, u, E, hattrs, haps, hacc, hE, hurl, hout, hbare⟩
+    have hfix : Gen.ugcPolicy.cleanAttrs t aps = some t.attrs := by
+      unfold Policy.cleanAttrs
+      split
+      · rfl
+      · rw [hattrs]
+        refine sanitizeAttrs_fixed_appended Gen.ugcPolicy t.data (ugc_noStyle _) hreq hsb u E aps hacc hE (fun _ => hurl) ?_
+        obtain ⟨f1, _, _, _⟩ := ugc_flags
+        simpa [f1] using hout
+    refine ⟨hseg, ?_⟩
+    rcases htt with h | h <;> simp only [h] <;> exact ⟨hss, aps, haps, hfix, hbare⟩
   cases htt : t.tt with
   | text => exact ⟨hseg, by simp only [htt]⟩
   | start => rw [htt] at hrest; exact tag (.inl htt) hrest
@@ -139,7 +186,7 @@ theorem ugc_conform (t : Token) (h : UgcDocToken t) : Conform Gen.ugcPolicy t :=
 
 /-- **C04, the converse half**: a document written entirely in the UGC vocabulary with valid values — every tag an
     element UGCPolicy allows, every attribute accepted by its rules for that element, every URL in the form the
-    URL check returns, `rel` with `nofollow` on every tag that has an href, no `target` — in canonical
+    URL check returns, followed by the `rel="nofollow"` that UGCPolicy appends to a link (`UgcTag`) — in canonical
     serialisation is returned by UGCPolicy byte for byte.  (For a document without the `rel="nofollow"`, the first
     pass adds it — C11 — and the result is a document of this kind: `C20_ugc`.) -/
 theorem C04_ugc_conforming_unchanged (toks : List Token) (h : ∀ t ∈ toks, UgcDocToken t) :
@@ -148,6 +195,26 @@ theorem C04_ugc_conforming_unchanged (toks : List Token) (h : ∀ t ∈ toks, Ug
   intro t ht
   rw [ugc_init]
   exact ugc_conform t (h t ht)
+
+
+/-- the hypotheses are met by a link: `<a href="http://x.com/" rel="nofollow">` is `u ++ E` with `u` the href the
+    rules accept and `E` the rel attribute UGCPolicy appends (and does not accept from the input) -/
+example : UgcDocToken ⟨.start, b!"a", [⟨b!"href", b!"http://x.com/"⟩, ⟨b!"rel", b!"nofollow"⟩]⟩ := by
+  refine ⟨?_, ?_⟩
+  · unfold SegOK
+    simp only
+    refine ⟨⟨97, [], rfl, by decide, by simp⟩, by decide, ?_⟩
+    intro a ha
+    simp only [List.mem_cons, List.not_mem_nil, or_false] at ha
+    rcases ha with rfl | rfl
+    · exact ⟨104, b!"ref", rfl, by decide, by decide⟩
+    · exact ⟨114, b!"el", rfl, by decide, by decide⟩
+  show UgcTag _
+  refine ⟨by decide, (Gen.ugcPolicy.elsAndAttrs.get? b!"a").getD [], [⟨b!"href", b!"http://x.com/"⟩],
+    [⟨b!"rel", b!"nofollow"⟩], rfl, rfl, ?_, ?_, ?_, by decide, .inl (by decide)⟩
+  · intro a ha; simp at ha; subst ha; decide
+  · intro a ha; simp at ha; subst ha; decide
+  · intro a ha; simp at ha; subst ha; decide
 
 /-- a document of this kind, and one without the rel (tests, not the unbounded claim) -/
 example :
